@@ -165,12 +165,27 @@ func VerifC11_Replace() {
 	ih := verifIDInBucket(v.id, 0)
 	p1, p2 := 7001, 7002
 	verifAnnounce(v, a1, ih, &p1, false)
+	// reads interleaved with the writes: a get_peers served between the two announces returns the
+	// first endpoint and must not pin it
+	if verifNondetBool() {
+		mid := verifGetPeers(v, verifUDPAddr4(), ih, nil)
+		if mid == nil || mid.R == nil {
+			return
+		}
+		verifAssert(len(mid.R.Values) == 1 && mid.R.Values[0].Port == p1, "C11: the first announce comes back until it is replaced")
+		verifReach("read-between")
+	}
 	verifAnnounce(v, a2, ih, &p2, false)
 	reply := verifGetPeers(v, verifUDPAddr4(), ih, nil)
 	if reply == nil || reply.R == nil {
 		return
 	}
 	verifAssert(len(reply.R.Values) == 1 && reply.R.Values[0].Port == p2, "C11: a later announce from the same IP replaces the endpoint")
+	again := verifGetPeers(v, verifUDPAddr4(), ih, nil)
+	if again == nil || again.R == nil {
+		return
+	}
+	verifAssert(len(again.R.Values) == 1 && again.R.Values[0].Port == p2, "C11: ... and repeated reads keep returning the replacement")
 	if hooked {
 		verifAssert(hookCalls == 2, "C11: the announce notification fires once per accepted announce, next to the store")
 		verifReach("hooked")
